@@ -183,6 +183,7 @@ class WnW(NativeModel):
     reservoir_name_list = property(lambda s: s._names(s.nodes, Reservoir))
     pipe_name_list = property(lambda s: s._names(s.links, Pipe))
     valve_name_list = property(lambda s: s._names(s.links, PRValve, PSValve, PBValve, FCValve, TCValve))
+    pump_name_list = property(lambda s: list(getattr(s, "pumps_", [])))
 
 
 class WnR(NativeModel):
@@ -356,6 +357,157 @@ def _valve_case(units, cls):
     return Case("%s,%s" % (units.name, cls.__name__), build, crosscheck=False)
 
 
+class _Pat(NativeModel):
+    def __init__(self, name):
+        self.name = name
+
+
+class _PatReg(NativeModel):
+    """PatternRegistry.__getitem__: the pattern of that name, None for None / unknown names"""
+
+    def __init__(self, name=None):
+        self.name = name
+
+    def __getitem__(self, key):
+        if key is None or self.name is None:
+            return None
+        return _Pat(key)
+
+
+def _pump_case(units, kind, speed_one, has_pattern):
+    def build(cx):
+        from wntr.network.elements import PowerPump, HeadPump
+        from wntr.network.elements import TimeSeries
+        Pw, Sp = cx.real("power"), (1.0 if speed_one else cx.real("speed"))
+        if not speed_one:
+            cx.assume(cx.t(Sp) != 1)
+        nm, n1, n2, cn, pn = cx.name("pump"), cx.name("node1"), cx.name("node2"), cx.name("curve"), cx.name("pattern")
+        ts = SymObj(TimeSeries, dict(_base=Sp, _pattern=(pn if has_pattern else None), _category=None,
+                                     _pattern_reg=_PatReg(pn if has_pattern else None)))
+        cls = PowerPump if kind == "POWER" else HeadPump
+        f = dict(_link_name=nm, _start_node=SymObj(Junction, dict(_name=n1)), _end_node=SymObj(Junction, dict(_name=n2)), _speed_timeseries=ts)
+        if kind == "POWER":
+            f["_base_power"] = Pw
+        else:
+            f["_pump_curve_name"] = cn
+        pump = SymObj(cls, f)
+        wnw, wnr = WnW(), WnR()
+        wnw.links[nm] = pump
+        wnw.pumps_ = [nm]
+        curve = types.SimpleNamespace(name=cn)
+        wnr.curve_name_list = [cn]
+        wnr.get_curve = lambda c: curve
+        wnr.get_pattern = lambda p: _Pat(p)
+        cx.target(_roundtrip_call, InpFile._write_pumps, InpFile._read_pumps, "[PUMPS]", _inp(units, wnw), _inp(units, wnr), wnw)
+
+        def post(out):
+            if not out.returned:
+                return []
+            posts = [("one_line_written_one_pump_read", out.value == 1 and len(wnr.calls) == 1 and wnr.calls[0][0] == "add_pump")]
+            if len(wnr.calls) != 1:
+                return posts
+            a_ = wnr.calls[0][1]
+            posts += [("name_and_end_nodes_kept", z3.And(a_[0].t == cx.t(nm), a_[1].t == cx.t(n1), a_[2].t == cx.t(n2))),
+                      ("pump_type_kept", a_[3] == kind),
+                      ("power_round_trips_in_the_power_unit", _eqn(a_[4], Pw)) if kind == "POWER" else ("head_curve_name_kept", a_[4].t == cx.t(cn)),
+                      ("speed_round_trips", _eqn(a_[5], Sp)),
+                      ("speed_pattern_kept", (a_[6].t == cx.t(pn)) if has_pattern else (a_[6] is None))]
+            return posts
+        cx.ensure(post)
+    return Case("%s,%s,speed_is_one=%s,pattern=%s" % (units.name, kind, speed_one, has_pattern), build, crosscheck=False)
+
+
+# ---------------------------------------------------------------------------- rules: values in IF / THEN / ELSE clauses
+
+class _RuleModel(NativeModel):
+    """the model as _EpanetRule.generate_control sees it"""
+
+    def __init__(self, elems):
+        self.elems = elems
+
+    def _find(self, name):
+        for n, e in self.elems:
+            if n is name or (isinstance(n, SV) and isinstance(name, SV) and n.t.eq(name.t)):
+                return e
+        raise KeyError(name)
+
+    get_link = _find
+    get_node = _find
+
+
+def _rule_pair(rule_w, rule_r, condition, then_action, else_action, model):
+    # harness text (not repository code): what InpFile._write_rules / _read_rules do with one rule, minus the text splitting
+    rule_w.add_control_condition(condition)
+    rule_w.add_action_on_true(then_action)
+    rule_w.add_action_on_false(else_action)
+    rule_r._if_clauses = list(rule_w._if_clauses)
+    rule_r._then_clauses = list(rule_w._then_clauses)
+    rule_r._else_clauses = list(rule_w._else_clauses)
+    return rule_r.generate_control(model)
+
+
+def _rule_models():
+    import wntr.network.controls as ctl
+    m = library.build_models()
+    for cls in (ctl.ValueCondition, ctl.ControlAction, ctl.Rule, ctl.AndCondition, ctl.OrCondition):
+        m.register(cls, (lambda c: (lambda interp, args, kw: (c.__name__, tuple(args), dict(kw))))(cls),
+                   verified_by="constructors store their arguments (contracts/c05_conditions.py: ControlAction.__init__, ValueCondition)")
+    return m
+
+
+_COND_KINDS = [("demand", Junction, None), ("head", Junction, None), ("level", Tank, None), ("pressure", Junction, None), ("flow", Pipe, None),
+               ("setting", PRValve, None), ("setting", PSValve, None), ("setting", PBValve, None), ("setting", FCValve, None), ("setting", TCValve, None),
+               ("setting", "pump", None)]
+_ACT_KINDS = [PRValve, PSValve, PBValve, FCValve, TCValve, "pump"]
+
+
+def _rule_case(units, ck, then_cls, else_cls):
+    attr, ccls, _ = _COND_KINDS[ck]
+
+    def build(cx):
+        import wntr.network.controls as ctl
+        from wntr.network.elements import HeadPump
+        from wntr.epanet.io import _EpanetRule
+
+        def elem(cls, nm):
+            if cls == "pump":
+                cls = HeadPump
+            if issubclass(cls, (Junction, Tank)):
+                return SymObj(cls, dict(_name=nm))
+            return SymObj(cls, dict(_link_name=nm))
+        cn, tn, en = cx.name("condition_element"), cx.name("then_element"), cx.name("else_element")
+        cx.assume(cx.t(cn) != cx.t(tn), cx.t(cn) != cx.t(en), cx.t(tn) != cx.t(en))
+        ce, te, ee = elem(ccls, cn), elem(then_cls, tn), elem(else_cls, en)
+        thr, tv, ev = cx.real("threshold"), cx.real("then_value"), cx.real("else_value")
+        cond = SymObj(ctl.ValueCondition, dict(_source_obj=ce, _source_attr=attr, _relation=ctl.Comparison.ge, _threshold=thr))
+        ta = SymObj(ctl.ControlAction, dict(_target_obj=te, _attribute="setting", _value=tv))
+        ea = SymObj(ctl.ControlAction, dict(_target_obj=ee, _attribute="setting", _value=ev))
+        mk = lambda: SymObj(_EpanetRule, dict(inp_units=units, mass_units=MassUnits.mg, ruleID="r", _if_clauses=[], _then_clauses=[], _else_clauses=[], priority=3))
+        model = _RuleModel([(cn, ce), (tn, te), (en, ee)])
+        cx.target(_rule_pair, mk(), mk(), cond, ta, ea, model)
+
+        def post(out):
+            if not out.returned:
+                return []
+            r = out.value
+            ok = isinstance(r, tuple) and r[0] == "Rule" and isinstance(r[1][0], tuple) and r[1][0][0] == "ValueCondition" and len(r[1][1]) == 1 and len(r[1][2]) == 1
+            posts = [("one_condition_one_then_action_one_else_action_read_back", bool(ok))]
+            if not ok:
+                return posts
+            c_args, t_args, e_args = r[1][0][1], r[1][1][0][1], r[1][2][0][1]
+            posts += [("condition_element_attribute_relation_kept", c_args[0] is ce and c_args[1] == attr and c_args[2] == ctl.Comparison.ge.symbol),
+                      ("condition_threshold_round_trips_in_the_unit_of_its_attribute_and_element_type", _eqn(c_args[3], thr)),
+                      ("then_action_target_and_attribute_kept", t_args[0] is te and t_args[1] == "setting"),
+                      ("then_value_round_trips_in_the_unit_of_its_valve_type", _eqn(t_args[2], tv)),
+                      ("else_action_target_and_attribute_kept", e_args[0] is ee and e_args[1] == "setting"),
+                      ("else_value_round_trips_in_the_unit_of_its_valve_type", _eqn(e_args[2], ev)),
+                      ("priority_kept", r[2].get("priority") == 3)]
+            return posts
+        cx.ensure(post)
+    nm = lambda c: c if isinstance(c, str) else c.__name__
+    return Case("%s,if_%s_of_%s,then_%s,else_%s" % (units.name, attr, nm(ccls), nm(then_cls), nm(else_cls)), build, crosscheck=False)
+
+
 _U = [getattr(FlowUnits, u) for u in UNITS]
 _pair_trust = ["token model: float(format(v)) == v for the 11/12-significant-digit formats, names contain no blanks",
                "to_si / from_si are exact inverses with the right parameter (C17, proved)",
@@ -370,6 +522,13 @@ CONTRACTS = [
              interpret_always=(_roundtrip_call,), trusted=_pair_trust),
     Contract("wntr.epanet.io:InpFile._write_tanks/_read_tanks", P, [_tank_case(u, o) for u in _U for o in (False, True)],
              interpret_always=(_roundtrip_call,), trusted=_pair_trust),
+    Contract("wntr.epanet.io:InpFile._write_pumps/_read_pumps", P + ["C03"],
+             [_pump_case(u, k, s1, hp) for u in _U for (k, s1, hp) in (("POWER", True, False), ("POWER", False, True), ("HEAD", True, True), ("HEAD", False, False))],
+             interpret_always=(_roundtrip_call,), trusted=_pair_trust + ["the head curve itself is read through [CURVES] (bounded round trip)"]),
+    Contract("wntr.epanet.io:_EpanetRule.add_control_condition/add_action_on_true/add_action_on_false/generate_control", P + ["C03"],
+             [_rule_case(u, ck, _ACT_KINDS[ck % 6], _ACT_KINDS[(ck + 2) % 6]) for u in _U for ck in range(len(_COND_KINDS))],
+             models=_rule_models, interpret_always=(_rule_pair,),
+             trusted=_pair_trust + ["text splitting of the [RULES] section into clauses (parse_rules_lines): bounded round trip"]),
     Contract("wntr.epanet.io:InpFile._write_valves/_read_valves", P, [_valve_case(u, c) for u in _U for c in (PRValve, PSValve, PBValve, FCValve, TCValve)],
              interpret_always=(_roundtrip_call,), trusted=_pair_trust),
 ]
